@@ -232,7 +232,8 @@ class BindExpression:
             )
 
         self.prefixes: Dict[
-            str, List[Tuple[DerivationTree, Dict[BoundVariable, Path]]]
+            Tuple[str, ImmutableGrammar],
+            List[Tuple[DerivationTree, Dict[BoundVariable, Path]]],
         ] = {}
         self.__flattened_elements: Dict[str, Tuple[Tuple[BoundVariable, ...], ...]] = {}
 
@@ -274,12 +275,13 @@ class BindExpression:
     def to_tree_prefix(
         self, in_nonterminal: str, grammar: Grammar
     ) -> List[Tuple[DerivationTree, Dict[BoundVariable, Path]]]:
-        if in_nonterminal in self.prefixes:
-            cached = self.prefixes[in_nonterminal]
+        immutable_grammar = grammar_to_immutable(grammar)
+        cache_key = (in_nonterminal, immutable_grammar)
+        if cache_key in self.prefixes:
+            cached = self.prefixes[cache_key]
             return [(opt[0].new_ids(), opt[1]) for opt in cached]
 
         result: List[Tuple[DerivationTree, Dict[BoundVariable, Path]]] = []
-        immutable_grammar = grammar_to_immutable(grammar)
 
         for bound_elements in flatten_bound_elements(
             nested_list_to_tuple(self.bound_elements),
@@ -290,7 +292,7 @@ class BindExpression:
                 bound_elements, in_nonterminal, immutable_grammar
             ).map(tap(lambda r: result.append(r)))
 
-        self.prefixes[in_nonterminal] = result
+        self.prefixes[cache_key] = result
         return result
 
     @staticmethod
